@@ -164,3 +164,79 @@ Example c06_example_reachable :
   reachable (fst (run (init_wheel 1000 0) [Start 1; HandleAdd])) /\
   mem 1 (srefer (fst (run (init_wheel 1000 0) [Start 1; HandleAdd]))) = true.
 Proof. split; [apply reachable_from_wheel; [discriminate|vm_compute; reflexivity]|reflexivity]. Qed.
+
+(* ------------------------------------------------------------------------------------------
+   Tie to the source (C06/Source.v): the heap's array code - timerHeap.Less / Swap from
+   sched/timerqueue.go and up, down, Fix and the sift parts of Pop and Remove from the Go
+   standard library's container/heap, translated with heap.Interface standing for a timerHeap -
+   is regenerated by tools/gofunc on every run (Generated/TimerHeap.v; the slice of node
+   pointers is one list per field, [cols l], the nodes distinct and non-nil).  On EVERY array
+   of fewer than 2^61 nodes (no heap order assumed) it computes what the array model of
+   C05/HeapArr.v computes (hlt, hswap, up, down, heap_fix, heap_pop, heap_remove: the model
+   under the heap timer's history theorems), without panic and within `length l` iterations.
+   If the comparison, the swap with its index bookkeeping, or a sift loop changes in the
+   source, these obligations are re-checked. *)
+From Coq Require Import Arith.
+From FV Require Import Generated.TimerHeap Lib.GoSem C05.HeapArr C06.Source.
+
+Theorem c06_src_less : forall l i j, (i < length l)%nat -> (j < length l)%nat ->
+  go_timerHeap_Less (map c_dl l) (map c_id l) (Z.of_nat i) (Z.of_nat j) = Lib.GoSem.Ok (hlt (hget l i) (hget l j)).
+Proof. exact src_less. Qed.
+Print Assumptions c06_src_less.
+
+Theorem c06_src_swap : forall l i j, (i < length l)%nat -> (j < length l)%nat ->
+  let '(ids, idxs, dls, pers) := cols l in
+  go_timerHeap_Swap ids idxs dls pers (Z.of_nat i) (Z.of_nat j) = Lib.GoSem.Ok (cols (hswap l i j)).
+Proof. exact src_swap. Qed.
+Print Assumptions c06_src_swap.
+
+Theorem c06_src_up : forall l j fuel, (j < length l)%nat -> Z.of_nat (length l) < 2 ^ 61 -> (j < fuel)%nat ->
+  let '(ids, idxs, dls, pers) := cols l in
+  go_heap_up_timerHeap fuel ids idxs dls pers (Z.of_nat j) = Lib.GoSem.Ok (cols (up (length l) l j)).
+Proof. exact src_up. Qed.
+Print Assumptions c06_src_up.
+
+Theorem c06_src_down : forall l i n f fuel,
+  (n <= length l)%nat -> Z.of_nat (length l) < 2 ^ 61 -> (Z.of_nat i < 2 ^ 61)%Z ->
+  (n - 2 * i <= f)%nat -> (0 < f)%nat -> (n - 2 * i <= fuel)%nat -> (0 < fuel)%nat ->
+  let '(ids, idxs, dls, pers) := cols l in
+  go_heap_down_timerHeap fuel ids idxs dls pers (Z.of_nat i) (Z.of_nat n) =
+  Lib.GoSem.Ok (let '(ids', idxs', dls', pers') := cols (fst (down f l i n)) in
+                ((i <? snd (down f l i n))%nat, ids', idxs', dls', pers')).
+Proof. exact src_down. Qed.
+Print Assumptions c06_src_down.
+
+Theorem c06_src_fix : forall l i fuel, (i < length l)%nat -> Z.of_nat (length l) < 2 ^ 61 -> (length l <= fuel)%nat ->
+  let '(ids, idxs, dls, pers) := cols l in
+  go_heap_Fix_timerHeap fuel ids idxs dls pers (Z.of_nat (length l)) (Z.of_nat i) = Lib.GoSem.Ok (cols (heap_fix l i)).
+Proof. exact src_fix. Qed.
+Print Assumptions c06_src_fix.
+
+(* heap.Pop and heap.Remove up to their final `return h.Pop()` (timerHeap.Pop takes the last
+   node off: heap_pop l = repo_pop (...), heap_remove l i = repo_pop (...) by definition) *)
+Theorem c06_src_pop : forall l fuel, (0 < length l)%nat -> Z.of_nat (length l) < 2 ^ 61 -> (length l <= fuel)%nat ->
+  (let '(ids, idxs, dls, pers) := cols l in
+   go_heap_Pop_timerHeap_prefix fuel ids idxs dls pers (Z.of_nat (length l)) =
+   Lib.GoSem.Ok (let n := (length l - 1)%nat in
+                 let '(ids', idxs', dls', pers') := cols (fst (down (length l) (hswap l 0 n) 0 n)) in
+                 Lib.GoSem.Reached (Z.of_nat n, ids', idxs', dls', pers'))) /\
+  heap_pop l = repo_pop (fst (down (length l) (hswap l 0 (length l - 1)) 0 (length l - 1))).
+Proof. intros l fuel H0 Hl Hf. split; [exact (src_pop l fuel H0 Hl Hf) | exact (heap_pop_sift l)]. Qed.
+Print Assumptions c06_src_pop.
+
+Theorem c06_src_remove : forall l i fuel, (i < length l)%nat -> Z.of_nat (length l) < 2 ^ 61 -> (length l <= fuel)%nat ->
+  (let '(ids, idxs, dls, pers) := cols l in
+   go_heap_Remove_timerHeap_prefix fuel ids idxs dls pers (Z.of_nat (length l)) (Z.of_nat i) =
+   Lib.GoSem.Ok (let n := (length l - 1)%nat in
+                 let l1 := if (n =? i)%nat then l
+                           else let '(l2, i') := down (length l) (hswap l i n) i n in
+                                if (i <? i')%nat then l2 else up (length l) l2 i in
+                 let '(ids', idxs', dls', pers') := cols l1 in
+                 Lib.GoSem.Reached (Z.of_nat i, Z.of_nat n, ids', idxs', dls', pers'))) /\
+  heap_remove l i =
+  repo_pop (let n := (length l - 1)%nat in
+            if (n =? i)%nat then l
+            else let '(l2, i') := down (length l) (hswap l i n) i n in
+                 if (i <? i')%nat then l2 else up (length l) l2 i).
+Proof. intros l i fuel Hi Hl Hf. split; [exact (src_remove l i fuel Hi Hl Hf) | exact (heap_remove_sift l i)]. Qed.
+Print Assumptions c06_src_remove.
